@@ -2,6 +2,7 @@ package ledger
 
 import (
 	"fmt"
+	"math/big"
 	"sort"
 
 	"pgregory.net/rapid"
@@ -257,6 +258,7 @@ func (w *world) actPublish(t *rapid.T) {
 	if err := pub.v.ExecuteSignedBlock(sb); err != nil {
 		t.Fatalf("publisher rejects its own block: %v\n history:\n  %s", err, w.history())
 	}
+	w.checkHours(t, pub, sb)
 	pub.m.Apply(sb)
 	w.published = append(w.published, sb)
 	w.logf("publisher.Publish(seq=%d time=%d txns=%v)", sb.Head.BkSeq, sb.Head.Time, hashesOf(sb.Body.Transactions))
@@ -292,6 +294,7 @@ func (w *world) submit(t *rapid.T, n *node, sb coin.SignedBlock, what string) bo
 		t.Fatalf("%s: block [%s] err=%v but the model says accept=%v (%s)\n header %+v\n history:\n  %s", n.name, what, err, wantOK, why, sb.Head, w.history())
 	}
 	if wantOK {
+		w.checkHours(t, n, sb)
 		n.m.Apply(sb)
 		w.stats["block_accepted"]++
 		ins := 0
@@ -598,3 +601,48 @@ func (w *world) checkDatabases(t *rapid.T) {
 }
 
 var _ = ref.New
+
+// checkHours is the explicit C03 oracle for a block that is being accepted: for every transaction the
+// output hours must not exceed the hours its inputs have accrued at the previous block's time
+// (an input whose accrued total does not fit 64 bits counts as zero: the documented legacy exception).
+func (w *world) checkHours(t *rapid.T, n *node, sb coin.SignedBlock) {
+	prevTime := n.m.Head().Head.Time
+	for i := range sb.Body.Transactions {
+		txn := &sb.Body.Transactions[i]
+		in := new(big.Int)
+		accrual := false
+		for _, id := range txn.In {
+			ux, ok := n.m.Utxo[id]
+			if !ok {
+				t.Fatalf("%s accepted a block spending %s which is not unspent\n history:\n  %s", n.name, shortHash(id), w.history())
+			}
+			v, c := rules.Accrued(ux, prevTime)
+			switch c {
+			case rules.AccrueOK:
+				in.Add(in, v)
+				if v.Cmp(bu(ux.Body.Hours)) > 0 {
+					accrual = true
+				}
+			case rules.AccrueFinalOverflow:
+				w.stats["legacy_overflow_input_counted_zero"]++
+			default:
+				t.Fatalf("%s accepted a transaction whose input hour calculation overflows\n history:\n  %s", n.name, w.history())
+			}
+		}
+		out := new(big.Int)
+		for _, o := range txn.Out {
+			out.Add(out, bu(o.Hours))
+		}
+		if out.Cmp(two64) >= 0 {
+			w.stats["legacy_wrap_blocks"]++ // not generated; counted if it ever happens
+			continue
+		}
+		if out.Cmp(in) > 0 {
+			t.Fatalf("%s accepted transaction %s creating coin hours: outputs %s > inputs accrued %s at time %d\n history:\n  %s", n.name, shortHash(txref.TxnHash(txn)), out, in, prevTime, w.history())
+		}
+		w.stats["hours_checked_txns"]++
+		if accrual {
+			w.stats["hours_with_accrual"]++
+		}
+	}
+}
